@@ -51,7 +51,9 @@ def snap(cfg, serials=None, defined=True, depth=0):
             rows.append(("<enumeration fails>", "err:" + type(exc).__name__, None))
             break
         flag = None
-        if defined:
+        if defined and isinstance(key, str) and "." not in key:
+            # (is_value_defined() reads a key with a dot as a path into nested configurations: for an undeclared key
+            # like "a.b" it would answer for another field)
             try:
                 flag = bool(is_value_defined(cfg, key))
             except Exception as exc:  # noqa: BLE001
